@@ -123,3 +123,9 @@ From XcpProofs Require Import PinnedSource.
 Theorem C19_src_pin_linux_lseek : pin_unchanged name_linux_lseek.
 Proof. exact pin_linux_lseek. Qed.
 Print Assumptions C19_src_pin_linux_lseek.
+
+(* ---- more glue on this property's path, pinned token for token ---- *)
+From XcpPins Require Import Pin_parblock_queue_file_blocks.
+Theorem C19_src_pin_parblock_queue_file_blocks : pin_unchanged name_parblock_queue_file_blocks.
+Proof. exact pin_parblock_queue_file_blocks. Qed.
+Print Assumptions C19_src_pin_parblock_queue_file_blocks.
